@@ -45,6 +45,12 @@ Invoked(t, status, thr, vt) ==
     /\ st' = [st EXCEPT ![t] = "done"]
     /\ UNCHANGED <<due, creq, nclients, relBegun, relEnded, closed>>
 
+(* one more reference, taken (logged when the call starts) by a client that still holds one: there is one more release to *)
+(* wait for before the scheduler may go away                                                                                *)
+AcqRef ==
+    /\ ~FinalBegun /\ nclients' = nclients + 1
+    /\ UNCHANGED <<st, due, creq, relBegun, relEnded, closed>>
+
 RelBegin ==
     /\ relBegun < nclients /\ relBegun' = relBegun + 1
     /\ UNCHANGED <<st, due, creq, nclients, relEnded, closed>>
